@@ -79,6 +79,60 @@ def run(chk):
         if w and qbad is None:
             qbad = (qp, ql, w)
     chk.extra["evaluator_level_programs"] = len(qprogs)
+    # the qubit book (Props/C03 live_handles_are_distinct_in_any_history): declarations, constructions and destructions of objects
+    # owning 3/4/6 qubit handles; every new handle gets an x gate at once, so the OpenQASM text shows which simulator index it denotes
+    from framework import driver as _driver
+    import re as _re
+    KH = {"QB": 3, "QD": 4, "QE": 6}
+    FL = {"QB": ["bq", "br[0]", "br[1]"], "QD": ["bq", "br[0]", "br[1]", "dq"], "QE": ["bq", "br[0]", "br[1]", "dq", "er[0]", "er[1]"]}
+    bprogs = []
+    for _ in range(400 if chk.thorough else 80):
+        ops, lines_, live, nid, nloc = [], [], [], 0, 0
+        budget = 12          # the register must stay small: allocations stop once 12 indices may be in use at once
+        in_use = 0
+        sizes = {}
+        for _k in range(chk.rng.randrange(3, 14)):
+            u = chk.rng.random()
+            if u < 0.3 and in_use + 3 <= budget:
+                k = chk.rng.randrange(1, 4)
+                in_use += k
+                names = ["l%d" % (nloc + i) for i in range(k)]
+                nloc += k
+                if chk.rng.random() < 0.5:
+                    lines_.append("qubit %s; %s" % (", ".join(names), " ".join("x(%s);" % n for n in names)))
+                else:
+                    lines_.append("qubit[%d] %s; %s" % (k, names[0], " ".join("x(%s[%d]);" % (names[0], i) for i in range(k))))
+                ops.append("d,%d" % k)
+            elif (u < 0.7 or not live) and in_use + 6 <= budget:
+                c = chk.rng.choice(list(KH))
+                nid += 1
+                live.append(nid)
+                sizes[nid] = KH[c]
+                in_use += KH[c]
+                lines_.append("%s o%d = new %s(); %s" % (c, nid, c, " ".join("x(o%d.%s);" % (nid, f) for f in FL[c])))
+                ops.append("n,%d,%d" % (nid, KH[c]))
+            elif live:
+                d = live.pop(chk.rng.randrange(len(live)))
+                in_use -= sizes[d]
+                lines_.append("destroy o%d;" % d)
+                ops.append("x,%d" % d)
+        bprogs.append((qobjgen.CLASSES + "function main() -> void {\n    " + "\n    ".join(lines_) + "\n}", ";".join(ops)))
+    import evallib as _ev2
+    _l, bimpl, _m, _i = _ev2.run_programs([(src, [0.9] * 300) for src, _o in bprogs], with_model=False)
+    bmodel = _driver(["book " + o for _s, o in bprogs])[0]
+    bbad = None
+    for (src, o), a, m in zip(bprogs, bimpl, bmodel):
+        chk.count(("book", o))
+        if not a.startswith("ok "):
+            bbad = bbad or (src, o, "the run ends with " + a[:80], m)
+            continue
+        got = [int(x) for x in _re.findall(r"^x q\[(\d+)\];", _ev2.split_result(a).get("qasm_text", ""), _re.M)]
+        want = [int(x) for grp in m[len("handles "):].split(";") for x in grp.split(",") if x]
+        if got != want and bbad is None:
+            bbad = (src, o, "simulator indices denoted by the handles, in allocation order: %s" % got, "qubit book model: %s" % want)
+    chk.extra["qubit_book_programs"] = len(bprogs)
+    if bbad:
+        chk.violation("qubit book: %s; %s\n%s" % (bbad[2], bbad[3], bbad[0][-700:]), {"source": bbad[0], "model_line": "book " + bbad[1], "kind": "book"})
     # corpus programs with their documented output (known findings are reported as such)
     import evallib as _ev
     cprogs = [o for _fn, o in framework.load_corpus("C03") if "source" in o]
